@@ -517,8 +517,52 @@ func compareProj(spec map[string]interface{}, real map[string]interface{}) []str
 
 // balances: C28 evaluated on the real accessors.  prev = totals before the block (nil: skip the withdrawal rule).
 func (in *inst) balances(prev map[string]common.Fixed64) []string {
+	return in.balancesCV(prev, nil)
+}
+
+// balancesCV additionally compares TotalAmount with the unspent deposit outputs of the chain view.
+func (in *inst) balancesCV(prev map[string]common.Fixed64, cv *chainView) []string {
 	var bad []string
 	st := in.arb.State
+	if cv != nil {
+		for _, n := range prodNames {
+			pr := st.GetProducer(producers[n].owner.pub)
+			if pr == nil {
+				continue
+			}
+			var sum common.Fixed64
+			for _, e := range cv.utxo[n] {
+				sum += e.val
+			}
+			if pr.TotalAmount() != sum {
+				bad = append(bad, fmt.Sprintf("total-differs-from-outputs:%s TotalAmount=%v, unspent deposit outputs=%v", n, pr.TotalAmount(), sum))
+			}
+		}
+	}
+	// the used DPoS v2 votes of an address are the votes it has with the producers
+	inUse := map[common.Uint168]common.Fixed64{}
+	seen := map[*state.Producer]bool{}
+	for _, m := range []map[string]*state.Producer{st.ActivityProducers, st.CanceledProducers, st.IllegalProducers, st.InactiveProducers, st.PendingProducers} {
+		for _, p := range m {
+			if seen[p] {
+				continue
+			}
+			seen[p] = true
+			for addr, dv := range p.GetAllDetailedDPoSV2Votes() {
+				for _, v := range dv {
+					for _, i := range v.Info {
+						inUse[addr] += i.Votes
+					}
+				}
+			}
+		}
+	}
+	for _, n := range voterName {
+		v := voters[n]
+		if u := st.UsedDposV2Votes[v.stakeAddr]; u != inUse[v.stakeAddr] {
+			bad = append(bad, fmt.Sprintf("used-differs-from-votes:%s UsedDposV2Votes=%v, votes held with producers=%v", n, u, inUse[v.stakeAddr]))
+		}
+	}
 	for _, n := range prodNames {
 		pr := st.GetProducer(producers[n].owner.pub)
 		if pr == nil {
@@ -528,7 +572,12 @@ func (in *inst) balances(prev map[string]common.Fixed64) []string {
 			bad = append(bad, fmt.Sprintf("total-negative:%s TotalAmount=%v", n, pr.TotalAmount()))
 		}
 		if pr.DepositAmount() < 0 {
-			bad = append(bad, fmt.Sprintf("deposit-negative:%s DepositAmount=%v", n, pr.DepositAmount()))
+			cls := "deposit-negative"
+			if pr.Identity() == state.DPoSV2 && pr.Info().StakeUntil < in.best && pr.DepositAmount()%(cfgMinDepositV2*ELA) == 0 {
+				// an expired v2 producer canceled (and unlocked) once more, see DPoS.tla expProdAgain
+				cls = "deposit-negative-expired-again"
+			}
+			bad = append(bad, fmt.Sprintf("%s:%s DepositAmount=%v", cls, n, pr.DepositAmount()))
 		}
 		if pr.Penalty() < 0 {
 			bad = append(bad, fmt.Sprintf("penalty-negative:%s Penalty=%v", n, pr.Penalty()))
@@ -624,7 +673,7 @@ func blame(items []item, path string) string {
 	}
 	if len(rel) == 0 {
 		if !strings.Contains(path, "[") {
-			return "block"
+			return "auto"
 		}
 		rel = items
 	}
@@ -702,11 +751,15 @@ func reportDiffs(c *ctx, chain []*builtBlock, t int, diffs []diffEntry, where st
 		cacheKey := cl + "|" + kinds
 		if k, ok := c.attrCache[cacheKey]; ok {
 			kinds = k
-		} else if bb := chain[blamed-1]; len(bb.items) >= 2 && bb.before != nil {
+		} else if bb := chain[blamed-1]; len(bb.items) >= 1 && bb.before != nil {
 			// which item alone is enough?  (every item of a block is valid on its own: all are
 			// checked against the pre-block state)
+			variants := [][]item{nil}
 			for _, it := range bb.items {
-				variant := build(bb.height, []item{it}, bb.nid, bb.before, bb.fork)
+				variants = append(variants, []item{it})
+			}
+			for _, vit := range variants {
+				variant := build(bb.height, vit, bb.nid, bb.before, bb.fork)
 				ch := append(append([]*builtBlock{}, chain[:blamed-1]...), variant)
 				dd2, err := directDumps(ch, blamed-1)
 				if err != nil {
@@ -724,7 +777,10 @@ func reportDiffs(c *ctx, chain []*builtBlock, t int, diffs []diffEntry, where st
 					}
 				}
 				if hit {
-					kinds = it.K
+					kinds = "auto" // the end-of-block changes alone (no transaction) are enough
+					if vit != nil {
+						kinds = vit[0].K
+					}
 					break
 				}
 			}
@@ -770,6 +826,7 @@ func replayOne(c *ctx, idx int) bool {
 	A := newInst()
 	A.arb.State.GetTxReference = refLookup
 	var chain []*builtBlock
+	balReported := map[string]bool{}
 	for i, st := range b {
 		switch st.Act() {
 		case "Block":
@@ -819,7 +876,11 @@ func replayOne(c *ctx, idx int) bool {
 					c.stats["refused-but-accepted"]++
 					if len(bad) > 0 {
 						cls := strings.SplitN(bad[0], ":", 2)[0]
-						rep.Violation("C28:"+shape+":"+cls+":"+kindsOf(bb.items),
+						kinds := kindsOf(bb.items)
+						if rep.Str(st, "why") == "forbidden" {
+							kinds = "Can" // the cancellation of a Returned producer, whatever else the block carries
+						}
+						rep.Violation("C28:"+shape+":"+cls+":"+kinds,
 							fmt.Sprintf("step %d: every transaction of block %d [%v] passes its real SpecialContextCheck against the pre-block state; "+
 								"processing the block gives: %s", i, bb.height, bb.items, strings.Join(bad, "; ")), caseInfo(i))
 						okAll = false
@@ -842,9 +903,16 @@ func replayOne(c *ctx, idx int) bool {
 				return false
 			}
 			chain = append(chain, bb)
-			if bad := A.balances(prev); len(bad) > 0 {
+			if bad := A.balancesCV(prev, bb.after); len(bad) > 0 {
 				cls := strings.SplitN(bad[0], ":", 2)[0]
-				rep.Violation("C28:balance:"+cls+":"+kindsOf(bb.items), fmt.Sprintf("step %d: after block %d [%v]: %s", i, bb.height, bb.items, strings.Join(bad, "; ")), caseInfo(i))
+				key := "C28:balance:" + cls + ":" + kindsOf(bb.items)
+				if cls == "deposit-negative-expired-again" {
+					key = "C28:balance:" + cls // caused by the end-of-block expiry, whatever the block carries
+				}
+				if !balReported[key] {
+					balReported[key] = true
+					rep.Violation(key, fmt.Sprintf("step %d: after block %d [%v]: %s", i, bb.height, bb.items, strings.Join(bad, "; ")), caseInfo(i))
+				}
 				okAll = false
 			}
 			// (ii) forward conformance
@@ -943,15 +1011,29 @@ func demonstrate(chain []*builtBlock, bb *builtBlock) []string {
 		return nil
 	}
 	prev := in.totals()
+	base := map[string]bool{}
+	for _, x := range in.balances(nil) {
+		base[x] = true // what was wrong already before this block
+	}
+	fresh := func(xs []string) []string {
+		var r []string
+		for _, x := range xs {
+			// the repeated expiry of a v2 producer happens at the end of whatever block comes next
+			if !base[x] && !strings.HasPrefix(x, "deposit-negative-expired-again") {
+				r = append(r, x)
+			}
+		}
+		return r
+	}
 	if err := in.process(bb); err != nil {
 		return []string{"panic:" + err.Error()}
 	}
-	bad := in.balances(prev)
+	bad := fresh(in.balances(prev))
 	for h := bb.height + 1; len(bad) == 0 && h <= bb.height+cfgLockup+1; h++ {
 		if err := in.process(&builtBlock{height: h, block: mkBlock(h, nil)}); err != nil {
 			return []string{"panic:" + err.Error()}
 		}
-		bad = in.balances(nil)
+		bad = fresh(in.balances(nil))
 	}
 	return bad
 }
